@@ -88,6 +88,9 @@ Matrix Round(const Matrix& matrix, unsigned int digits)
 
 double Relative_Difference(double a, double b)
 {
+	// Equal arguments (in particular two zeros, for which the quotient below is 0/0) do not differ.
+	if(a == b)
+		return 0.0;
 	double d   = std::fabs(a - b);
 	double max = std::max(fabs(a), fabs(b));
 	return d / max;
